@@ -13,14 +13,14 @@ def eq_num(a, b):
     return core.close(a, core.unrat(b))
 
 
-def cmp_field(name, iv, mv):
+def cmp_field(name, iv, mv, big=1.0):
     if name in ("pay", "rake", "pnl"):
         if iv is None or mv is None or iv == "!" or isinstance(mv, str):
             return (iv is None and mv is None) or (iv == "!" and isinstance(mv, str))
         if name == "pnl":
             # pnl = payout + stack - starting stack is computed in floats: its rounding error is relative to the largest
             # figure in that sum (a ten-digit stack), not to the result (which may be a third of a chip)
-            scale = max([1.0] + [abs(float(x)) for x in iv] + [abs(float(core.unrat(y))) for y in mv])
+            scale = max([1.0, float(big)] + [abs(float(x)) for x in iv] + [abs(float(core.unrat(y))) for y in mv])
             return len(iv) == len(mv) and all(abs(float(x) - float(core.unrat(y))) <= 1e-9 * scale for x, y in zip(iv, mv))
         return len(iv) == len(mv) and all(eq_num(x, y) for x, y in zip(iv, mv))
     if name in ("toCall", "minBet", "maxBet", "closed"):
@@ -35,7 +35,13 @@ def cmp_field(name, iv, mv):
 
 
 def diff_obs(io, mo, fields):
-    return [f"{f}: impl={io.get(f)!r} model={mo.get(f)!r}" for f in fields if not cmp_field(f, io.get(f), mo.get(f))]
+    # (the largest chip figure of the observation: the float error of pnl = payout + stack - starting stack is relative to it)
+    big = 1.0
+    for k in ("stacks", "pot", "pay"):
+        v = io.get(k)
+        if isinstance(v, list):
+            big = max([big] + [abs(float(x)) for x in v if isinstance(x, (int, float))])
+    return [f"{f}: impl={io.get(f)!r} model={mo.get(f)!r}" for f in fields if not cmp_field(f, io.get(f), mo.get(f), big)]
 
 
 ALL_FIELDS = ("stacks", "pot", "street", "action", "board", "deck", "last", "complete", "pay", "rake", "log",
